@@ -11,6 +11,10 @@ pub mod c07;
 #[cfg(feature = "full")]
 pub mod c09;
 #[cfg(feature = "full")]
+pub mod c10;
+#[cfg(feature = "full")]
+pub mod c11;
+#[cfg(feature = "full")]
 pub mod c26;
 #[cfg(feature = "full")]
 pub mod c30;
@@ -48,6 +52,8 @@ pub fn all() -> Vec<Property> {
         v.push(Property { id: "C06", level: "exploration", build: c06::build });
         v.push(Property { id: "C07", level: "exploration", build: c07::build });
         v.push(Property { id: "C09", level: "exploration", build: c09::build });
+        v.push(Property { id: "C10", level: "exploration", build: c10::build });
+        v.push(Property { id: "C11", level: "exploration", build: c11::build });
         v.push(Property { id: "C26", level: "exploration", build: c26::build });
         v.push(Property { id: "C30", level: "exploration", build: c30::build });
         v.push(Property { id: "C31", level: "exploration", build: c31::build });
